@@ -28,6 +28,7 @@ sys.path.insert(0, os.path.dirname(os.path.abspath(__file__)))
 import common  # noqa: E402
 import gen_inputs  # noqa: E402
 import sweep  # noqa: E402
+import props_c18x  # noqa: E402  (WP3: extractors of Extract2*.lean)
 
 _W = sweep._W
 
@@ -159,8 +160,10 @@ class Session:
     def is_bof(self, o):
         return self.kinds.get(self.ci.of(o)) == "bof"
 
-    def sync_tokens(self, lAll, with_len=False):
+    def sync_tokens(self, lAll, with_len=False, with_hier=False):
         changed = self.sent is None or self.sent != lAll  # token objects define no __eq__: identity
+        if with_hier and [getattr(o, "hierarchy", None) for o in lAll] != getattr(self, "sent_hier", None):  # WP3
+            changed = True
         lens = None
         if with_len:
             lens = [len(o.get_value()) for o in lAll]
@@ -176,8 +179,11 @@ class Session:
             if c < 0:
                 self.unknown_classes.add(type(o).__module__ + "." + type(o).__qualname__)
             parts.append("%d:%d:%d" % (self.serial(o), c if c >= 0 else ncls, len(o.value)))
+            if isinstance(getattr(o, "hierarchy", None), int):  # WP3: optional 4th field
+                parts[-1] += ":%d" % o.hierarchy
         self.drv.send("TOKS\t" + " ".join(parts))
         self.sent = list(lAll)
+        self.sent_hier = [getattr(o, "hierarchy", None) for o in lAll]  # WP3
         self.sent_lens = lens if lens is not None else [len(o.value) for o in lAll]
         self.sent_map = None
         self.sent_fp = None
@@ -283,6 +289,9 @@ def enc_extract(name, fn, ci, args, kwargs):
     """wire arguments of a modelled extractor call, or None if the call is outside the model"""
     try:
         a = _bind(fn, args, kwargs)
+        w2 = props_c18x.enc_extract2(name, a, ci)  # WP3
+        if w2 is not None:
+            return w2
         if name == "get_tokens_matching":
             return [name, _clist(ci, a["lTokens"])]
         if name == "get_tokens_bounded_by":
@@ -336,6 +345,7 @@ MODELLED_EXTRACTORS = [
     "get_all_tokens",
     "get_lines_with_length_that_exceed_column",
 ]
+MODELLED_EXTRACTORS += props_c18x.MODELLED2  # WP3
 
 PY_ERRORS = (IndexError, KeyError, TypeError, AttributeError, ValueError)
 
@@ -492,6 +502,8 @@ def run_job(job):
 
 
 def run_job_inner(job):
+    if job.get("wp3"):  # WP3: witness / synthetic jobs
+        return props_c18x.run_special(job, sys.modules[__name__])
     import vsgrun
     from vsg import exceptions as vexc
     from vsg import token_map
@@ -621,18 +633,22 @@ def run_job_inner(job):
                 wire = enc_extract(name, fn, ci, a, k)
                 out["fnstats"][name + ("" if wire else ":outside-model")] += 1
                 if wire is not None:
-                    if S.sync_tokens(o.lAllObjects, with_len=(name == "get_lines_with_length_that_exceed_column")):
+                    if S.sync_tokens(o.lAllObjects, with_len=(name == "get_lines_with_length_that_exceed_column"), with_hier=(name in props_c18x.HIER)):
                         epoch[0] += 1
                     S.sync_index(o.oTokenMap, None)
                     key = (epoch[0], S.n_map_sync, tuple(wire))
                     if key not in seen_calls:
                         seen_calls.add(key)
-                        real = "ok " + ";".join(S.canon_toi(t) for t in lt)
+                        real = "ok " + ";".join(props_c18x.canon_toi2(S, name, t) for t in lt)  # WP3: meta data per extractor
                         stats["extract_replayed"] += 1
                         if lt:
                             stats["extract_replayed_nonempty"] += 1
 
-                        def cbx(model, real=real, wire=wire, rule=cur["rule"]):
+                        def cbx(model, real=real, wire=wire, rule=cur["rule"], snap=props_c18x.snapshot(name, S.sent)):
+                            model = props_c18x.fix_model(name, model, snap)  # WP3
+                            if model == "outside":  # WP3: the model declares the call outside its domain
+                                out["fnstats"][name + ":outside-model"] += 1
+                                return
                             if real != model:
                                 out["breaks"].append({"what": "correspondence extractor %s" % name, "detail": {"job": out["job"], "rule": rule, "args": wire, "model": model[:300], "real": real[:300]}})
 
@@ -652,7 +668,7 @@ def run_job_inner(job):
                 if "replay" in feats and name in MODELLED_EXTRACTORS and e.__traceback__ is not None:
                     wire = enc_extract(name, fn, ci, a, k)
                     if wire is not None:
-                        S.sync_tokens(o.lAllObjects)
+                        S.sync_tokens(o.lAllObjects, with_hier=(name in props_c18x.HIER))
                         S.sync_index(o.oTokenMap, None)
                         model = S.ask("EXTRACT\t" + "\t".join(wire))
                         stats["extract_replayed_raising"] += 1
@@ -788,6 +804,7 @@ def make_jobs(tier):
         p = sample[(n_inv + i) % len(sample)]
         v = "orig" if i % 2 == 0 else gen_inputs.VARIANTS[i % len(gen_inputs.VARIANTS)]
         jobs.append({"path": p, "variant": v, "vseed": seedv * 1000 + 500 + i, "config": "default", "features": ["index"], "nlookups": 120})
+    jobs += props_c18x.extra_jobs(tier, sample, seedv)  # WP3: Lean witnesses + synthetic token lists on the real extractors
     return jobs
 
 
@@ -875,6 +892,7 @@ def run(prop, tier):
             "search_wall_s": round(time.time() - t0, 1),
         }
     )
+    props_c18x.merge_coverage(res, results)  # WP3
     res.assumptions = [
         "extractors outside the modelled set are covered by the per-run slice certificate (Lean checker on the explored runs), not by a theorem",
         "bisect is modelled on sorted lists (proved for every list process_tokens builds); a token class without docstring unique_id makes extract_unique_id raise AttributeError, which no class of the generated table does",
